@@ -204,6 +204,8 @@ pub struct Outcome {
     /// per-peer current_frame at marks (tick, frames) used by liveness oracles
     pub progress_marks: Vec<(u32, Vec<i32>)>,
     pub stranded: Vec<String>,
+    /// forged foreign input packets (kinds 5, 6) injected towards a peer whose session was not Running yet
+    pub forged_before_running: u64,
 }
 
 impl Outcome {
@@ -881,7 +883,11 @@ pub fn run_typed<I: HInp, P: InputPredictor<I> + 'static>(sc: &Scenario, opts: &
                     n.healed = false;
                 }
                 Op::Forge { to, from, kind, a, b, bytes, .. } => {
-                    forge(&net, *to, *from, *kind, *a, *b, bytes, nplayers);
+                    let done = forge(&net, *to, *from, *kind, *a, *b, bytes, nplayers);
+                    let tp = (*to as usize).wrapping_sub(1);
+                    if done && matches!(*kind, 5 | 6) && tp < np && peers[tp].sess.as_ref().map(|s| s.current_state() != SessionState::Running).unwrap_or(false) {
+                        out.forged_before_running += 1;
+                    }
                 }
                 Op::Misuse { kind: 98, .. } => {}
                 Op::Misuse { peer, kind, arg, .. } => {
